@@ -371,7 +371,7 @@ def _non_null_counters(f: Func, roles) -> Set[str]:
         if isinstance(i, ast.If) and not_null_test(i.test):
             for s in ast.walk(i):
                 if isinstance(s, ast.AugAssign) and isinstance(s.op, ast.Add) and isinstance(s.target, ast.Subscript) \
-                        and base_name(s.target) in roles.per_group_arrays:
+                        and const_int(s.value) == 1 and base_name(s.target) in roles.per_group_arrays:
                     nn.add(base_name(s.target))
     # exclude arrays that are also incremented outside such a test (row counters)
     for s in walk_no_nested(f.node):
@@ -1314,4 +1314,176 @@ def rule_H2(repo: Repo) -> RuleResult:
                     "every accepted row must be written once at its group's current position, which then advances by one")
     if n < 1:
         raise AnalysisError("H2: no accepted-row path found")
+    return res
+
+
+# ------------------------------------------------------------------------------------------------ E5
+
+def rule_E5(repo: Repo) -> RuleResult:
+    """The normalised EMA recurrence, on every valid-row path of the four adjusted kernels (_ema_adjusted, _ema_time_weighted,
+    _ema_grouped, _ema_grouped_timed):  out[i] = (x + R) / (1 + W)  with R, W the running numerator / weight *at that point*,
+    followed on the same path by R := R + x and W := W + 1 (in either order).  This is the recurrence whose closed form is the
+    weighted mean of the property; the decay of R and W is E3/E4's business."""
+    res = RuleResult("E5", "EMA kernels: out = (x + R)/(1 + W), then R += x and W += 1, on every valid-row path")
+    em = repo.mod("emas")
+    n = 0
+    for kname in ("_ema_adjusted", "_ema_time_weighted", "_ema_grouped", "_ema_grouped_timed"):
+        f = em.func(kname)
+        loop = [x for x in walk_no_nested(f.node) if isinstance(x, ast.For)][-1]
+        # the element variable x: loop target that is tested by isnan
+        xs = {norm(c.args[0]) for c in ast.walk(loop) if isinstance(c, ast.Call) and norm(c.func) in ("np.isnan", "is_null", "isnan")
+              and c.args}
+        if len(xs) != 1:
+            raise AnalysisError(f"E5: the value variable of {kname} is not identified ({sorted(xs)})")
+        x = next(iter(xs))
+        for p in enumerate_paths(loop.body):
+            if p.exit not in ("fall", "continue"):
+                continue
+            # valid-row path: the isnan test (possibly inside an `or`) was decided false
+            valid = any(pol is False and isinstance(t, ast.AST) and f"isnan({x})" in norm(t) for t, pol in p.conds)
+            if not valid:
+                continue
+            outs = [(i, st) for i, st in enumerate(p.stmts) if isinstance(st, ast.Assign) and isinstance(st.targets[0], ast.Subscript)
+                    and isinstance(st.value, ast.BinOp) and isinstance(st.value.op, ast.Div)]
+            desc = p.describe()[:70]
+            if len(outs) != 1:
+                res.bad(f, loop, f"{kname}: {len(outs)} normalised output store(s) on {desc}",
+                        "a valid row must produce exactly one output of the form (x + R) / (1 + W)", path=p.describe())
+                continue
+            n += 1
+            i0, st = outs[0]
+            c = _canon_cells(st.value, {})
+            num, den = c[1], c[2]
+            R = W = None
+            if num[0] == "add" and len(num) == 3 and ("name", x) in num[1:]:
+                R = [t for t in num[1:] if t != ("name", x)]
+                R = R[0] if len(R) == 1 else None
+            if den[0] == "add" and len(den) == 3 and ("const", "1") in den[1:]:
+                W = [t for t in den[1:] if t != ("const", "1")]
+                W = W[0] if len(W) == 1 else None
+            if R is None or W is None or R[0] != "name" or W[0] != "name":
+                res.bad(f, st, f"{kname}: {norm(st)} on {desc}",
+                        f"the output of a valid row is not ({x} + R) / (1 + W) with R and W the running numerator and weight",
+                        path=p.describe())
+                continue
+            ups = {}
+            for s2 in p.stmts[i0 + 1:]:
+                if isinstance(s2, ast.AugAssign) and isinstance(s2.op, ast.Add):
+                    ups.setdefault(norm(s2.target), []).append(_canon_cells(s2.value, {}))
+                elif isinstance(s2, ast.Assign) and len(s2.targets) == 1 and norm(s2.targets[0]) in (R[1], W[1]):
+                    v = _canon_cells(s2.value, {})
+                    k = norm(s2.targets[0])
+                    # X = X + t  /  X = beta * (X + t)  (decay folded in)
+                    inner = v
+                    if inner[0] == "mul":
+                        adds = [t for t in inner[1:] if t[0] == "add"]
+                        inner = adds[0] if len(adds) == 1 else inner
+                    if inner[0] == "add" and ("name", k) in inner[1:]:
+                        rest = [t for t in inner[1:] if t != ("name", k)]
+                        if len(rest) == 1:
+                            ups.setdefault(k, []).append(rest[0])
+            okR = ups.get(R[1]) == [("name", x)]
+            okW = ups.get(W[1]) == [("const", "1")]
+            if okR and okW:
+                res.ok(f, st, f"{kname}: {norm(st)[:60]}; {R[1]} += {x}; {W[1]} += 1 on {desc}", "")
+            else:
+                res.bad(f, st, f"{kname}: updates after {norm(st)[:50]} on {desc}: {R[1]} += {ups.get(R[1])}, {W[1]} += {ups.get(W[1])}",
+                        f"after a valid row the running numerator must grow by {x} and the running weight by 1, each exactly once",
+                        path=p.describe())
+    if n < 4:
+        raise AnalysisError(f"E5: only {n} valid-row paths found (floor 4)")
+    seen, uniq = set(), []
+    for v in res.violations:
+        if v.key() not in seen:
+            seen.add(v.key()); uniq.append(v)
+    res.violations = uniq
+    return res
+
+
+# ------------------------------------------------------------------------------------------------ W3
+
+def rule_W3(repo: Repo) -> RuleResult:
+    """Window bookkeeping of rolling sum/mean and max/min, on every accepted-row path: the non-null counter grows by one exactly
+    when the new value is not null and shrinks by one exactly when the buffer is full and the evicted value is not null; the
+    running sum (sum/mean kernel) gains the new value / loses the evicted value under the same two conditions."""
+    res = RuleResult("W3", "rolling kernels: non-null count and running sum follow the values entering and leaving the window")
+    nb = repo.mod(NB)
+    for kname in ROLLING_KERNELS[:2]:
+        f = nb.func(kname)
+        roles, buf, pos, parr, window, loop = _window_roles(f)
+        nn = _non_null_counters(f, roles)
+        if len(nn) != 1:
+            raise AnalysisError(f"W3: non-null counter of {kname} not identified ({sorted(nn)})")
+        nnc = next(iter(nn))
+        # the element variable and the evicted-value variable
+        elem = [x.id for l in walk_no_nested(f.node) if isinstance(l, ast.For) for x in ast.walk(l.target) if isinstance(x, ast.Name)][-1]
+        old = {s.targets[0].id for s in ast.walk(loop) if isinstance(s, ast.Assign) and len(s.targets) == 1
+               and isinstance(s.targets[0], ast.Name) and isinstance(s.value, ast.Subscript) and base_name(s.value) == buf}
+        null_flags = {s.targets[0].id: norm(s.value.args[0]) for s in walk_no_nested(f.node) if isinstance(s, ast.Assign)
+                      and len(s.targets) == 1 and isinstance(s.targets[0], ast.Name) and isinstance(s.value, ast.Call)
+                      and norm(s.value.func) in ("is_null", "np.isnan") and s.value.args}
+        sums = {base_name(s.target) for s in ast.walk(loop) if isinstance(s, ast.AugAssign) and isinstance(s.target, ast.Subscript)
+                and isinstance(s.op, ast.Add) and isinstance(s.value, ast.Name) and s.value.id == elem
+                and base_name(s.target) in roles.per_group_arrays}
+
+        def nullness(p, var: str) -> Optional[bool]:
+            """True: var is null on this path, False: not null, None: undecided"""
+            out = set()
+            for t, pol in p.conds:
+                if not isinstance(t, ast.AST):
+                    continue
+                neg = False
+                e = t
+                if isinstance(e, ast.UnaryOp) and isinstance(e.op, ast.Not):
+                    neg, e = True, e.operand
+                about = None
+                if isinstance(e, ast.Name) and e.id in null_flags:
+                    about = null_flags[e.id]
+                elif isinstance(e, ast.Call) and norm(e.func) in ("is_null", "np.isnan") and e.args:
+                    about = norm(e.args[0])
+                if about == var:
+                    out.add(pol != neg)
+            return next(iter(out)) if len(out) == 1 else None
+
+        for p in _accepted_paths(f, loop):
+            vnull = nullness(p, elem)
+            onull = [nullness(p, o) for o in old if nullness(p, o) is not None]
+            evicted_nonnull = (False in onull)
+            d_nn = sum((1 if isinstance(st.op, ast.Add) else -1) for st in p.stmts if isinstance(st, ast.AugAssign)
+                       and isinstance(st.target, ast.Subscript) and base_name(st.target) == nnc and const_int(st.value) == 1)
+            if vnull is None:
+                continue
+            want = (0 if vnull else 1) - (1 if evicted_nonnull else 0)
+            desc = p.describe()[:80]
+            # infeasible combinations (fullness decided both ways) are filtered like in W1
+            fulls = {pol for t, pol in p.conds if isinstance(t, ast.Name) and t.id.endswith("full")} | \
+                    {not pol for t, pol in p.conds if isinstance(t, ast.UnaryOp) and isinstance(t.op, ast.Not)
+                     and isinstance(t.operand, ast.Name) and t.operand.id.endswith("full")}
+            if len(fulls) > 1:
+                continue
+            if d_nn == want:
+                res.ok(f, loop, f"{kname}: non-null count {d_nn:+d} on {desc}", "")
+            else:
+                res.bad(f, loop, f"{kname}: non-null count {d_nn:+d} (expected {want:+d}) on {desc}",
+                        "the window's non-null count must gain one exactly for a non-null new value and lose one exactly for a "
+                        "non-null evicted value", path=p.describe())
+            for sarr in sums:
+                gain = [st for st in p.stmts if isinstance(st, ast.AugAssign) and isinstance(st.target, ast.Subscript)
+                        and base_name(st.target) == sarr and isinstance(st.op, ast.Add) and norm(st.value) == elem]
+                lose = [st for st in p.stmts if isinstance(st, ast.AugAssign) and isinstance(st.target, ast.Subscript)
+                        and base_name(st.target) == sarr and isinstance(st.op, ast.Sub) and norm(st.value) in old]
+                ok = (len(gain) == (0 if vnull else 1)) and (len(lose) == (1 if evicted_nonnull else 0))
+                if ok:
+                    res.ok(f, loop, f"{kname}: {sarr} +{len(gain)} -{len(lose)} on {desc}", "")
+                else:
+                    res.bad(f, loop, f"{kname}: {sarr} +{len(gain)} -{len(lose)} on {desc}",
+                            "the running sum must gain the new value exactly when it is not null and lose the evicted value exactly "
+                            "when it is not null", path=p.describe())
+    seen, uniq = set(), []
+    for v in res.violations:
+        if v.key() not in seen:
+            seen.add(v.key()); uniq.append(v)
+    res.violations = uniq
+    if not res.instances:
+        raise AnalysisError("W3: no accepted-row path with a decided null test found")
     return res
